@@ -19,8 +19,9 @@ ID = 'C19'
 LEVEL = 'exploration'
 TECHNIQUE = 'runtime monitor: precedence/equivalence tables checked in fresh interpreters + reference classification rule'
 RULE = ('precedence: for each of 12 keys (9 documented, 3 unknown) a seeded choice of code source (absent / value / '
-        'callable / None) x environment source (absent / text); behaviour: each documented setting in {code, env} '
-        'form; classification: 6000 generated (path, include, exclude, app root) tuples with overlapping prefixes, '
+        'callable (lambda, partial, bound method, callable object, a function answering differently each time) / None) x environment '
+        'source (absent / text), plus a second configuration object after the environment changed; behaviour: each documented setting in {code, env} '
+        'form (roots also with a trailing slash / not normalised), two argument-less deep.start() calls in one process; classification: 6000 generated (path, include, exclude, app root) tuples with overlapping prefixes, '
         'exclusion inside inclusion, lists and comma-separated text of 0-3 items; non-trivial = two sources competed, '
         'or a prefix matched; distinct by canonical case')
 ASSUMPTIONS = ['prefix items are non-empty and contain no comma', 'equality of poll cadence is judged in logical terms '
